@@ -1,2 +1,3 @@
 pub mod ast;
+pub mod body;
 pub mod tok;
